@@ -1160,3 +1160,59 @@ gc_kv.stmt_hints = [
      [("collected-only-from-the-scanned-range", "(%s) or (%s)" % (IN_EPHEMERAL_RANGE, IN_EXPIRATION_RANGE)),
       ("collected-id-is-the-keys-id", "event_id == key[-32:].hex()")]),
 ]
+
+
+# ---------------------------------------------------------------------------------------------------- LMDBStorage.close (C06, C08, C07)
+# shutting down must not lose what was acknowledged: every task already on the writer queue (an accepted event, an accepted
+# deletion) is applied before the writer stops.  close() therefore only queues the end-of-work sentinel behind them and waits for the
+# writer; it does not stop the writer loop any other way.
+class _CloseQueue:
+    def __pyvc_getattr__(self, sx, attr, st, node):
+        if attr == "put":
+            def put(sx2, a, k, s, n):
+                item = a[0]
+                is_none = isinstance(item, Val) and isinstance(item.ty, V._None)
+                s.ghost["sentinels_queued"] = Val(V.Int, s.ghost["sentinels_queued"].term + (1 if is_none else 0))
+                s.ghost["other_tasks_queued"] = Val(V.Int, s.ghost["other_tasks_queued"].term + (0 if is_none else 1))
+                return [R(s, NONE)]
+            return [R(st, Func(put, "writer_queue.put"))]
+        raise Unsupported("writer_queue.%s" % attr, node)
+
+
+REG.classes["WriterThreadC"] = {"running": V.Bool, "processing": V.Bool}
+
+
+@REG.method("WriterThreadC", "join", frame=[])
+def _wt_join(sx, args, kwargs, st, node):
+    st.ghost["joined_after_sentinel"] = Val(V.Bool, st.ghost["sentinels_queued"].term == 1)
+    return [R(st, NONE)]
+
+
+class _Closable:
+    def __pyvc_getattr__(self, sx, attr, st, node):
+        return [R(st, Func(lambda sx2, a, k, s, n: [R(s, NONE)], "closable." + attr))]
+
+
+REG.classes["LMDBStorageC"] = {
+    "log": lambda sx, st, name: LOGGER, "db": lambda sx, st, name: Conc(_Closable()), "garbage_collector_task": lambda sx, st, name: Conc(_Closable()),
+    "writer_queue": lambda sx, st, name: Conc(_CloseQueue()), "writer_thread": V.ObjT("WriterThreadC"),
+    "query_pool": lambda sx, st, name: Conc(_Closable()), "options": lambda sx, st, name: Conc({"path": V.mk_str("p")}),
+}
+
+
+def ghost_close(sx, st):
+    for g in ("sentinels_queued", "other_tasks_queued"):
+        st.ghost[g] = V.mk_int(0)
+    st.ghost["joined_after_sentinel"] = V.mk_bool(False)
+
+
+REG.unit(Unit(
+    P, "LMDBStorage.close",
+    Contract("LMDBStorage.close", {"self": V.ObjT("LMDBStorageC")},
+             ensures=[("one-sentinel-behind-the-pending-tasks", "ghost('sentinels_queued') == 1 and ghost('other_tasks_queued') == 0"),
+                      ("waits-for-the-writer", "ghost('joined_after_sentinel')"),
+                      ("writer-loop-not-stopped-by-hand", "self.writer_thread.running == old(self.writer_thread.running)")],
+             raises={}, modifies=["self.db"]),
+    props=["C06", "C08", "C07"], ghost_init=ghost_close,
+    canaries=[("never-returns", "False")],
+))
